@@ -347,7 +347,12 @@ def tyOf (c : Ctx) : Expr → TC Ty
         | some fs => match lookupField fs f with
           | some t => if t = tv then pure t else throw s!"field {f} store type"
           | none => throw s!"no field {f}"
-        | none => throw "field of a non-record"
+        | none =>
+          match findUni c.tops tn with
+          | some fs => match lookupField fs f with
+            | some t => if t = tv then pure t else throw s!"branch {f} store type"
+            | none => throw s!"no branch {f}"
+          | none => throw "field of a non-record"
       | _ => throw "field of a non-record"
   | .uniLit tn tag e => do
       let te ← tyOf c e
@@ -614,7 +619,6 @@ def checkTops (c : Ctx) : List Top → TC Unit
       if !isUpperId n then throw s!"bad type identifier {n}"
       if fs.isEmpty then throw "empty union"
       checkFields c fs
-      if !distinctTys (fs.map (·.2)) then throw "union branches of one type"
       checkTops { c with tops := c.tops ++ [.uniDef n fs], names := n :: fs.map (·.1) ++ c.names } r
   | .exn n p :: r => do
       fresh c n
